@@ -35,7 +35,12 @@ REDUCING = {"sum", "prod", "mean", "softmax", "matmul", "cumsum", "cumprod"}
 # measured), but not composed: functional::get_function_composition / get_function_operands does not compile for them (rejected)
 ALL_OPS = ["transpose", "reshape", "flatten", "expand_dims", "squeeze", "flip", "tile", "repeat", "broadcast_to", "moveaxis", "pad", "roll", "take",
            "concatenate", "matmul", "sum", "prod", "mean", "cumsum", "cumprod", "softmax", "where", "stack"] + sorted(UFUNC1) + sorted(UFUNC2) + sorted(ACTIV)
-PROBE_ONLY = set()
+PROBE_ONLY = {"pad", "take"}  # pad: static_assert(arity == n_operands) in functional::apply; take: no get_function_t (GET_FUNCTION_UNSUPPORTED)
+RT_KEEPDIMS_PROBE = {"op": "pipe", "arrays": [{"shape": [2, 3], "data": [1, 2, 3, 4, 5, 6]}], "stages": [{"f": "sum", "in": [0], "a": {"axis": 1, "keepdims": True}}]}
+QUICK_UFUNC_PROBES = {"negative", "tanh", "relu", "add", "divide", "maximum"}
+MULTI = set(UFUNC2) | {"concatenate", "matmul", "where", "stack"}
+F_DANGLING = "C13-ufunc-view-operand-dangling-reference"
+F_ORDER = "C13-composition-view-operand-order"
 
 
 def _prod(s):
@@ -157,7 +162,8 @@ def gen_stage(b, op, src):
         r = np.pad(x, [(pw[i], pw[dd + i]) for i in range(dd)], constant_values=a["value"])
     elif op == "roll":
         ax = rnd.choice([None] + list(range(dd)))
-        a = {"shift": rnd.randint(-3, 3), "axis": ax}
+        ext = x.size if ax is None else x.shape[ax]
+        a = {"shift": rnd.randint(-(ext - 1), ext - 1), "axis": ax}  # |shift| < extent: larger shifts are C04-roll-shift-exceeds-extent (host)
         r = np.roll(x, a["shift"], ax)
     elif op == "take":
         ax = rnd.randint(0, dd - 1)
@@ -179,9 +185,9 @@ def gen_stage(b, op, src):
         ax = rnd.randint(0, dd - 1)
         s = list(x.shape); s[ax] = rnd.randint(1, 2)
         other = b.leaf(s) if rnd.random() < 0.8 else src
-        ins = [src, other]
+        ins = [src, other] if rnd.random() < 0.7 else [other, src]
         a = {"axis": ax}
-        r = np.concatenate((x, b.val(other)), ax)
+        r = np.concatenate((b.val(ins[0]), b.val(ins[1])), ax)
     elif op == "stack":
         other = b.leaf(list(x.shape)) if rnd.random() < 0.8 else src
         ins = [src, other]
@@ -190,15 +196,20 @@ def gen_stage(b, op, src):
     elif op == "matmul":
         if dd < 2:
             return None
-        other = b.leaf([x.shape[-1], rnd.randint(1, 3)], lo=-2, hi=2)
-        ins = [src, other]
-        r = np.matmul(x, b.val(other))
+        if rnd.random() < 0.7:
+            other = b.leaf([x.shape[-1], rnd.randint(1, 3)], lo=-2, hi=2)
+            ins = [src, other]
+        else:
+            other = b.leaf([rnd.randint(1, 3), x.shape[-2]], lo=-2, hi=2)
+            ins = [other, src]
+        r = np.matmul(b.val(ins[0]), b.val(ins[1]))
     elif op in ("sum", "prod", "mean"):
         if rnd.random() < 0.7 or dd == 1:
             ax = rnd.randint(-dd, dd - 1)
         else:
             ax = sorted(rnd.sample(range(dd), rnd.randint(1, dd)))
-        kd = rnd.choice([None, "ct_true", "ct_false", True, False])
+        # a run-time bool keepdims makes the view an either<> of two view types: not a device-supported program (see RT_KEEPDIMS_PROBE)
+        kd = rnd.choice([None, "ct_true", "ct_false"])
         a = {"axis": ax, "keepdims": kd}
         npf = {"sum": np.sum, "prod": np.prod, "mean": np.mean}[op]
         r = npf(x, axis=tuple(ax) if isinstance(ax, list) else ax, keepdims=kd in ("ct_true", True))
@@ -519,8 +530,19 @@ class C13(e2.ProgenProp):
 
     @staticmethod
     def _finding(case, sched=None):
-        """id of the known-finding input class that contains this (program, schedule), else None"""
-        return None
+        """id of the finding input class that contains this (program, schedule), else None (classes are properties of the program DAG only)"""
+        na = len(case.get("arrays", []))
+        order = False
+        for s in case.get("stages", []):
+            f = s["f"]
+            views = [j for j, i in enumerate(s["in"]) if i >= na]
+            # a broadcasting ufunc node whose operand is itself a view (mean = divide(sum(x), n) and softmax are such nodes by definition)
+            if f in ("mean", "softmax") or (f in UFUNC2 and views):
+                return F_DANGLING
+            # a multi-operand node with a view operand that is not the first operand (where / stack wrap every operand in a view)
+            if f in ("where", "stack") or (f in MULTI and any(j >= 1 for j in views)):
+                order = True
+        return F_ORDER if order else None
 
     def features(self, case, failure):
         return {"finding": self._finding(case.get("case") or {}, case.get("schedule"))}
@@ -533,6 +555,8 @@ class C13(e2.ProgenProp):
         progs = []
         seen = set()
 
+        excluded = {}
+
         def add(c, tag):
             if c is None:
                 return
@@ -540,13 +564,24 @@ class C13(e2.ProgenProp):
             if h in seen:
                 return
             seen.add(h)
+            fid = self._finding(c)
+            if self._is_known(fid):
+                excluded[fid] = excluded.get(fid, 0) + 1
+                return
             progs.append((c, tag))
-        for op in ALL_OPS:  # every op once at depth 1: measures which ops the functional layer supports
+        self._excluded_programs = excluded
+        add(RT_KEEPDIMS_PROBE, "probe")
+        # every op once at depth 1: measures which ops the functional layer supports (quick: one representative of the ufunc families,
+        # which share one get_function_t specialisation)
+        probes = ALL_OPS if th else [o for o in ALL_OPS if not (o in UFUNC1 or o in UFUNC2 or o in ACTIV) or o in QUICK_UFUNC_PROBES]
+        for op in probes:
             add(gen_program(rnd, composable, depth=1, first_op=op), "probe")
         for c in e2.fixed_view_cases()[23:]:  # the fixed depth-2/3 compositions shared with C09/C11
             add(c, "fixed")
         n = 400 if th else 60
-        while len(progs) < n:
+        guard = 0
+        while len(progs) < n and guard < 50 * n:
+            guard += 1
             d = rnd.choice([2, 2, 3, 3, 1])
             add(gen_program(rnd, composable, depth=d), "random")
         return progs, rnd
@@ -558,11 +593,9 @@ class C13(e2.ProgenProp):
         progs, rnd = self.programs(tier, seed)
         nsched = 300 if th else 100
         units = []
+        for fid, cnt in self._excluded_programs.items():
+            stats.rejected["excluded_by_known_finding:" + fid] = stats.rejected.get("excluded_by_known_finding:" + fid, 0) + cnt
         for pi, (case, tag) in enumerate(progs):
-            fid = self._finding(case, None)
-            if self._is_known(fid):
-                stats.rejected["excluded_by_known_finding:" + fid] = stats.rejected.get("excluded_by_known_finding:" + fid, 0) + 1
-                continue
             kinds = attr_kinds(case, rnd if (tag == "random" and pi % 2) else None)
             text = render_program(case, kinds)
             if text is None:
@@ -583,7 +616,7 @@ class C13(e2.ProgenProp):
                 stats.rejected["rejected_compile"] = stats.rejected.get("rejected_compile", 0) + 1
                 stats.classes["program:rejected_compile"] = stats.classes.get("program:rejected_compile", 0) + 1
                 if u["tag"] == "probe":
-                    rejected_ops[ops[0]] = first_error(err)
+                    rejected_ops[ops[0] + ("[run-time bool keepdims]" if u["case"] is RT_KEEPDIMS_PROBE else "")] = first_error(err)
                 else:
                     k = "rejected_composition:" + ">".join(ops)
                     info.setdefault("rejected_compositions", {})[k] = first_error(err)
@@ -609,7 +642,7 @@ class C13(e2.ProgenProp):
         r, _ = progen.run_bin(u["path"], "")
         return r
 
-    def _run_unit(self, u, nsched, seed, schedules=None):
+    def _run_unit(self, u, nsched, seed, schedules=None, filter_known=True):
         r0 = self._probe_N(u)
         if r0.get("_timeout"):
             return {"status": "timeout"}
@@ -619,12 +652,16 @@ class C13(e2.ProgenProp):
             return {"status": "crash_host", "crash": r0.get("crash")}
         if hdr.get("hv") is False or hdr.get("num"):
             return {"status": "no_array_result", "hdr": hdr}
+        prep = [x for x in recs if x.get("prep")]
+        if not prep:
+            return {"status": "crash_prepare", "hdr": hdr, "crash": r0.get("crash")}
+        hdr["n_operands"] = prep[0].get("n_operands", 0)
         N = hdr["N"]
         excluded = 0
         if schedules is None:
             srnd = random.Random(int(chash(u["case"]), 16) ^ (seed * 2654435761))
             allsch = make_schedules(srnd, N, nsched)
-            schedules = [s for s in allsch if not self._is_known(self._finding(u["case"], s))]
+            schedules = [s for s in allsch if not (filter_known and self._is_known(self._finding(u["case"], s)))]
             excluded = len(allsch) - len(schedules)
         r, _ = progen.run_bin(u["path"], "".join(sched_line(s) + "\n" for s in schedules), timeout=600)
         if r.get("_timeout"):
@@ -641,6 +678,8 @@ class C13(e2.ProgenProp):
             return [(None, "HARNESS-ERROR program failed before the kernel simulation (host view / eval): %s" % (out.get("crash"),))]
         if out["status"] == "no_array_result":
             return []
+        if out["status"] == "crash_prepare":
+            return [(None, "preparing the launch on the host (functional::get_function_composition / get_function_operands, as cuda/evaluator.hpp:33-36 does) crashed: %s" % (out.get("crash"),))]
         hdr, N, schedules = out["hdr"], out["N"], out["schedules"]
         ref = hdr["ref"]
         if ref.get("hv") is not True or len(ref.get("elems", [])) != N or N != _prod(ref["shape"]):
@@ -670,7 +709,7 @@ class C13(e2.ProgenProp):
         case = u["case"]
         ops = [s["f"] for s in case["stages"]]
         depth = len(ops)
-        rich = depth >= 2 or any(o in BROADCASTING or o in REDUCING for o in ops) or _implicit_broadcast(case)
+        rich = depth >= 2 or any(o in BROADCASTING or o in REDUCING for o in ops)
         fs = self._judge_unit(u, out)
         key = "program:" + out["status"]
         stats.classes[key] = stats.classes.get(key, 0) + 1
@@ -723,13 +762,9 @@ class C13(e2.ProgenProp):
             return []
         u = {"case": case["case"], "kinds": kinds, "path": path}
         sch = [case["schedule"]] if case.get("schedule") else None
-        out = self._run_unit(u, 100, 0, schedules=sch)
+        out = self._run_unit(u, 100, 0, schedules=sch, filter_known=False)
         return [(dict(case, schedule=s) if s else case, f, {}) for s, f in self._judge_unit(u, out) if not f.startswith("HARNESS-ERROR")][:1]
 
 
 def hdrt(hdr):
-    return hdr["ref"].get("t", "?")
-
-
-def _implicit_broadcast(case):
-    return False
+    return hdr["ref"].get("t") or ("f64" if isinstance(hdr.get("sentinel"), float) else "int")
